@@ -74,7 +74,8 @@ def _get_stix_version(data):
             stix_version = "2.0"
         elif isinstance(data, stix2.v21._STIXBase21):
             stix_version = "2.1"
-        elif isinstance(data, dict):
+        else:
+            # (a dict, or any other mapping)
             stix_version = detect_spec_version(data)
 
     return stix_version
@@ -119,7 +120,7 @@ def _is_versionable_type(data):
                 data._properties,
             )
 
-        elif isinstance(data, dict):
+        else:
             # Tougher to handle dicts.  We need to consider STIX version,
             # map to a registered class, and from that get a more complete
             # picture of its properties.
